@@ -213,6 +213,7 @@ def run(chk, facts):
         chk.ob("R-C20-3", "ancestors-only", ok, "otherwise the answer is: some parent has the ancestor" if ok else "the ancestor search of has_parent changed shape", loc)
     except AnchorError as e:
         chk.anchor_fail("R-C20-3", e)
+    true_grounds(chk, facts, "R-C20-3")
 
     # ---------------- R-C20-4 ----------------
     st = syn.structs.get("check::name::Name")
@@ -275,6 +276,31 @@ def run(chk, facts):
     borrow(chk, facts, c05, ("R-C05-4|",), {"R-C05-4": "unify_type asks the relation in the direction parent >= child (shared with C05)"})
     chk.assume("transitivity through the parent graph and generics, the tuple special case and associativity of union around None are not decided (ND)")
     chk.notes.append("C20: the relation extracted from the source is model-checked on a finite universe by evaluating the extracted formula (the code is not run).")
+
+
+def true_grounds(chk, facts, rule):
+    """every path on which one of the three `has_parent` implementations of Class answers a literal `true` rests on the receiver itself
+    (`self.name` compared with what is asked), on the wildcard Any, or on the answer of an ancestor - never on the asked name alone
+    (`if name == Exception { return Ok(true) }` makes every class an exception).  Shared by C20, C08 and C04."""
+    from .common import fn_paths
+    syn = facts.syn
+    n = 0
+    for fn in syn.fns:
+        if fn["name"] != "has_parent" or fn["mod"] != "check::context::clss" or not fn.get("body") or "HasParent" not in (fn.get("impl_trait") or ""):
+            continue
+        which = (fn.get("impl_trait") or "").replace(" ", "")
+        for p_ in fn_paths(fn["body"]):
+            r_ = src(strip(p_.result), -30).replace(" ", "") if p_.result is not None else ""
+            if r_ != "Ok(true)":
+                continue
+            n += 1
+            pos_ = [c for c, pol in p_.conds if pol]
+            grounded = any(("self.name" in c or "self." in c and "name" in c) or "any()" in c.lower() or "ANY" in c or "has_parent(" in c for c in pos_)
+            chk.ob(rule, f"true-grounds:{which}|{n}", grounded,
+                   f"{which}: `true` because {pos_[-1][:70] if pos_ else '-'}" if grounded else
+                   f"{which}::has_parent answers `true` on a path whose conditions ({[c[:60] for c in pos_] or 'none'}) look neither at the class itself, nor at Any, nor at an ancestor's "
+                   "answer: a class becomes assignable to (or an instance of) something it does not descend from", facts.loc_of(fn))
+    chk.floor(rule, n, 2, "paths of has_parent that answer a literal true")
 
 
 def accumulators(chk, facts, rule):
